@@ -7,6 +7,6 @@ Next == x' = x
 \* design-level facts: with no deviation every spelling resolves alike; the as-is
 \* resolution differs exactly on relative spellings
 IdealAgrees == \A c \in RealLayouts : ResolveAsIs(c) = Resolve(c)
-NearestEnclosing == \A c \in RealLayouts : Resolve(c) # 0 => (Resolve(c) \in c.stores /\ Resolve(c) <= c.start
+NearestEnclosing == \A c \in RealLayouts : (Resolve(c) # 0 /\ ~ViaLink(c)) => (Resolve(c) \in c.stores /\ Resolve(c) <= c.start
                                             /\ \A s \in c.stores : s <= c.start => s <= Resolve(c))
 =============================================================================
